@@ -303,7 +303,12 @@ func checkC13(c *Check) {
 		ok := false
 		allInstrs(m, func(in ssa.Instruction) {
 			if r, isR := in.(*ssa.Return); isR && len(r.Results) == 1 {
-				ok = vField(vParam(m, 0), "size")(r.Results[0])
+				rv := r.Results[0]
+				if cv, isCv := strip(rv).(*ssa.Convert); isCv {
+					rv = cv.X
+				}
+				isSizeAddr := func(v ssa.Value) bool { return fieldOf(strip(v)) == fSize }
+				ok = vField(vParam(m, 0), "size")(r.Results[0]) || vOr(vCall("(*sync/atomic.Int64).Load", isSizeAddr), vCall("(*sync/atomic.Int32).Load", isSizeAddr), vCall("sync/atomic.LoadInt64", isSizeAddr))(rv)
 			}
 		})
 		c.Cond(ok, p.FuncKey(m)+":result", p.FuncPos(m), "Size() = size field", "Size() does not return the size field")
@@ -448,7 +453,17 @@ func checkC13(c *Check) {
 			key := p.FuncKey(u.Fn) + ":size." + u.Kind
 			pos := p.Pos(u.Instr.Pos())
 			st, isStore := u.Instr.(*ssa.Store)
-			if !isStore || !writers[u.Fn] {
+			// an atomic counter: size.Add(int64(n)) is the update, size.Load() a read
+			atomicAdd := false
+			if u.Kind == "callarg" {
+				switch u.Call {
+				case "(*sync/atomic.Int64).Load", "(*sync/atomic.Int32).Load", "sync/atomic.LoadInt64", "sync/atomic.LoadInt32":
+					continue
+				case "(*sync/atomic.Int64).Add", "(*sync/atomic.Int32).Add", "sync/atomic.AddInt64", "sync/atomic.AddInt32":
+					atomicAdd = true
+				}
+			}
+			if (!isStore && !atomicAdd) || !writers[u.Fn] {
 				c.Bad(key, pos, "size is modified outside Write()")
 				continue
 			}
@@ -472,6 +487,15 @@ func checkC13(c *Check) {
 				}
 				return false
 			}
+			if atomicAdd {
+				ci := u.Instr.(ssa.CallInstruction)
+				delta := ci.Common().Args[len(ci.Common().Args)-1]
+				if cv, isCv := strip(delta).(*ssa.Convert); isCv {
+					delta = cv.X
+				}
+				c.Cond(fromUnder(delta), key, pos, "size.Add(count returned by the underlying Write)", "size is updated with "+vstr(delta)+" instead of the count the underlying writer reported")
+				continue
+			}
 			ok := vBin(token.ADD, vField(vParam(bw, 0), "size"), fromUnder)(st.Val)
 			c.Cond(ok, key, pos, "size += count returned by the underlying Write", "size is updated with "+vstr(st.Val)+" instead of the count the underlying writer reported")
 		}
@@ -480,6 +504,12 @@ func checkC13(c *Check) {
 		}
 		// every byte count the underlying writer reports is added, also when it comes with an error
 		isSizeStore := func(in ssa.Instruction) bool {
+			if ci, isC := in.(ssa.CallInstruction); isC && len(ci.Common().Args) > 0 {
+				switch callName(ci.Common()) {
+				case "(*sync/atomic.Int64).Add", "(*sync/atomic.Int32).Add", "sync/atomic.AddInt64", "sync/atomic.AddInt32":
+					return fieldOf(strip(ci.Common().Args[0])) == fSize
+				}
+			}
 			st, ok := in.(*ssa.Store)
 			return ok && fieldOf(strip(st.Addr)) == fSize
 		}
